@@ -79,6 +79,18 @@ func (l *EvLog) Take() (evs []Ev, gaugeMax map[string]int) {
 	return
 }
 
+// hasStart reports whether the handler of the call with this id has been entered.
+func (l *EvLog) hasStart(id string) bool {
+	l.mu.Lock()
+	defer l.mu.Unlock()
+	for i := len(l.evs) - 1; i >= 0; i-- {
+		if l.evs[i].Kind == "start" && l.evs[i].CallID == id {
+			return true
+		}
+	}
+	return false
+}
+
 func (l *EvLog) Len() int {
 	l.mu.Lock()
 	defer l.mu.Unlock()
@@ -465,6 +477,22 @@ func isReset(err error) bool {
 }
 
 // rawExchange writes data under the segmentation schedule and reads the reply stream.
+// rawStall: connect, write data, never read; when release is closed, close the connection.
+func rawStall(network, addr string, data []byte, release <-chan struct{}) (*Exchange, error) {
+	c, local, err := dialRaw(network, addr)
+	if err != nil {
+		return nil, err
+	}
+	ex := &Exchange{Local: local}
+	c.SetWriteDeadline(time.Now().Add(20 * time.Second))
+	if _, err := c.Write(data); err != nil {
+		ex.WriteErr = err
+	}
+	<-release
+	c.Close()
+	return ex, nil
+}
+
 func rawExchange(network, addr string, data []byte, seg Seg, end int, stall time.Duration, slowReadUS ...int) (*Exchange, error) {
 	c, local, err := dialRaw(network, addr)
 	if err != nil {
